@@ -480,3 +480,74 @@ pub fn stalled_answer(client_port: u16, hs: Hs, n_down: u32, tag: u64, stall_ms:
     }
     Ok(())
 }
+
+/// Full duplex in bulk: the application writes `up` bytes and does not read before it has written them all (it has a
+/// small receive buffer, so the answer backs up in the relay early), while the target streams `down` bytes from the start
+/// and takes the upload at the same time. Both directions are independent: the upload must complete although the
+/// download is blocked, then the application reads the whole answer and end-of-stream, and the target has read exactly
+/// the upload.
+pub fn duplex_bulk(client_port: u16, hs: Hs, up: u32, down: u32, tag: u64) -> Result<(), FlowFail> {
+    use std::io::Read;
+    let listener = Listener::bind();
+    let (mut app, pre) = net::app_connect_opt(client_port, hs, listener.port, Duration::from_secs(15), Some(2048)).map_err(|e| soft("handshake", format!("local {} handshake failed: {}", hs.name(), e)))?;
+    let (tag_a, tag_t) = (tag * 2 + 1, tag * 2 + 2);
+    net::write_ks(&mut app, tag_a, 0, 64).map_err(|e| soft("app-write", format!("first write: {}", e)))?;
+    let Some(tgt) = listener.accept(wait()) else {
+        return Err(soft("no-dial", format!("the target on port {} was not dialled within {:?}", listener.port, wait())));
+    };
+    let (up, down) = (up as usize, down as usize);
+    let limit = if crate::rt::failed_already() { Duration::from_secs(6) } else { Duration::from_secs(30) };
+    // target: one thread streams the answer, the reader verifies the upload on the fly
+    let tgt_rx = Reader::spawn(tgt.try_clone().map_err(|e| soft("harness", e.to_string()))?, pre.clone(), tag_a);
+    let mut tw = tgt.try_clone().map_err(|e| soft("harness", e.to_string()))?;
+    tw.set_write_timeout(Some(limit)).ok();
+    let writer = std::thread::spawn(move || net::write_ks(&mut tw, tag_t, 0, down));
+    // application: the whole upload first, no reading meanwhile
+    app.set_write_timeout(Some(limit)).ok();
+    let wrote = net::write_ks(&mut app, tag_a, 64, up);
+    let want_up = pre.len() + 64 + up;
+    let res = (|| {
+        if let Err(e) = wrote {
+            let t = tgt_rx.snap();
+            return Err(soft(
+                "upload-stalls-while-the-download-is-blocked",
+                format!("the application writes {} bytes before it reads; the target streams {} bytes meanwhile: the application's write did not complete within {:?} ({}); the target has {} of {} upload bytes", up, down, limit, e, t.count, want_up),
+            ));
+        }
+        let (t, ok) = tgt_rx.wait(limit, |r| r.count >= want_up || r.eof || r.err.is_some() || r.bad_at.is_some());
+        if let Some(b) = t.bad_at {
+            return Err(hard("target-wrong-byte", format!("byte {} received by the target differs from what the application wrote", b)));
+        }
+        if !ok || t.count < want_up {
+            return Err(soft("app-to-target-stall", format!("target has {} of {} upload bytes (eof={}, err={:?}) after {:?}", t.count, want_up, t.eof, t.err, limit)));
+        }
+        // now the application comes for the answer
+        app.set_read_timeout(Some(limit)).ok();
+        let mut got = 0usize;
+        let mut buf = vec![0u8; 1 << 16];
+        while got < down {
+            match app.read(&mut buf) {
+                Ok(0) => return Err(hard("answer-truncated", format!("the application got {} of {} answer bytes and then end-of-stream", got, down))),
+                Ok(n) => {
+                    let exp = crate::gen::keystream(tag_t, got, n.min(down.saturating_sub(got)));
+                    if n > exp.len() {
+                        return Err(hard("app-extra-bytes", format!("the application received more than the {} bytes the target wrote", down)));
+                    }
+                    if let Some(at) = (0..n).find(|i| buf[*i] != exp[*i]) {
+                        return Err(hard("app-wrong-byte", format!("byte {} of the answer differs from what the target wrote", got + at)));
+                    }
+                    got += n;
+                }
+                Err(e) => return Err(soft("target-to-app-stall", format!("the application has {} of {} answer bytes after {:?}: {}", got, down, limit, e))),
+            }
+        }
+        Ok(())
+    })();
+    let _ = app.shutdown(Shutdown::Both);
+    let _ = tgt.shutdown(Shutdown::Both);
+    match writer.join() {
+        Ok(Err(e)) if res.is_ok() => return Err(soft("target-write", format!("the target could not write its {} answer bytes: {}", down, e))),
+        _ => {}
+    }
+    res
+}
